@@ -995,6 +995,10 @@ def registry_probe_inputs(name, rng, k=40):
         for prefix in prefixes:
             heads += [prefix + lo, prefix + hi]
         prefix = prefixes[0]
+        # the values just outside this entry at its own level (an unregistered office / bank / prefix next to it)
+        for s_out in (D.step(hi, alphabet, 1), D.step(lo, alphabet, -1)):
+            if s_out:
+                heads.append(prefix + s_out)
         if e.children:
             # a value next to / outside the registered children
             ch = rng.choice(e.children)
